@@ -415,8 +415,44 @@ def target_c(gate):
         gate("x")
 
 
-TARGETS = {"a": target_a, "b": target_b, "c": target_c}
-GEN_CHAINS = {}
+def _pygate(gate, site):
+    gate(site)
+    return 0
+
+
+def target_d(gate):
+    # a loop whose two gates sit at different stack depths: a frame that is seen at L, then at M, then at L again has
+    # the same f_lasti both times it is at L - whatever was read while it was at M must not be mixed in
+    # (at L the frame is inside a C-level call - a callable object - and an observer cannot know its stack depth; at M it
+    # is inside a call of a Python function, where the frame records its real depth, temporaries included)
+    FR.append(sys._getframe())
+    for i in range(5):
+        gate("L")
+        with M(1):
+            x = (M(10 + i), M(20 + i), _pygate(gate, "M"))
+        del x
+
+
+def _gen_e(gate):
+    # sibling with blocks at the same nesting level in a generator that the target thread iterates: the block stack at
+    # one yield and the value stack at the other do not belong together
+    FR.append(sys._getframe())
+    for _i in range(3):
+        with M(1):
+            gate("a")
+            yield 1
+        with M(2):
+            gate("b")
+            yield 2
+
+
+def target_e(gate):
+    for _ in _gen_e(gate):
+        gate("x")
+
+
+TARGETS = {"a": target_a, "b": target_b, "c": target_c, "d": target_d, "e": target_e}
+GEN_CHAINS = {"e": [(1,), (2,)]}
 
 
 def make_script(ir):
@@ -570,6 +606,8 @@ def snapshot_consistent(script, details):
         if isinstance(obj, types.MethodType) and isinstance(obj.__self__, M) and obj.__func__ is M.__exit__:
             ks.append(obj.__self__.k)
             continue
+        if script == "d" and isinstance(obj, M) and obj.k >= 10:
+            continue      # that script's temporaries
         return "the snapshot holds an object the frame never had on its value stack: %s" % (repr(obj)[:80],)
     if script in GEN_CHAINS:
         chains, norm = GEN_CHAINS[script], tuple(ks)
@@ -580,13 +618,51 @@ def snapshot_consistent(script, details):
     return None
 
 
+def snapshot_signature(details):
+    """(blocks, kinds of the value-stack entries): what a snapshot looks like, up to the loop iteration"""
+    sig = []
+    for obj in details.stack:
+        if obj is None:
+            sig.append("-")
+        elif isinstance(obj, types.MethodType) and isinstance(obj.__self__, M) and obj.__func__ is M.__exit__:
+            k = obj.__self__.k
+            sig.append("exit%d" % (k if k < 10 else (10 if k < 20 else 20)))
+        elif isinstance(obj, M):
+            sig.append("M%d" % (10 if obj.k < 20 else 20))
+        else:
+            sig.append(type(obj).__name__)
+    return (tuple((b.handler, b.level) for b in details.blocks), tuple(sig))
+
+
+def valid_signatures(script, max_adv):
+    """the snapshots of the scripted frame taken while its thread is blocked at each of its gates (nobody moves): whenever
+    the inspector reads anything in a raced run the target is blocked at one of these gates too, so a snapshot that is
+    'consistent with a single instruction position' is one of these"""
+    key = (script, max_adv)
+    if key not in VALID:
+        sigs = set()
+        for nadv in range(max_adv + 1):
+            g, t = start(script, nadv)
+            try:
+                if FR and not g.done:
+                    try:
+                        sigs.add(snapshot_signature(stackscope.lowlevel.inspect_frame(FR[0])))
+                    except Exception:
+                        pass
+            finally:
+                if t.is_alive():
+                    finish(g, t)
+        VALID[key] = sigs
+    return VALID[key]
+
+
 def _consistent_for(script, ctxs):
     if script in GEN_CHAINS:
         return consistent_gen(ctxs, GEN_CHAINS[script])
     return consistent(ctxs)
 
 
-def one(script, nadv, jstar, k, api, new_thread=False):
+def one(script, nadv, jstar, k, api, new_thread=False, jstar2=None, k2=0, valid=None):
     import stackscope._verif as V
     g, t = start(script, nadv)
     frame = FR[0] if FR else None
@@ -597,6 +673,11 @@ def one(script, nadv, jstar, k, api, new_thread=False):
         if not name.startswith(("inspect_frame:", "unwrap_thread:", "stackslice:")):
             return
         hooks.append(name)
+        if jstar2 is not None and len(hooks) - 1 == jstar2:
+            # a second move at a later preemption point (the target may be back where it was at the first)
+            for _ in range(k2):
+                if not g.advance():
+                    break
         if len(hooks) - 1 == jstar:
             for _ in range(k):
                 if not g.advance():
@@ -657,6 +738,10 @@ def one(script, nadv, jstar, k, api, new_thread=False):
         problem = _consistent_for(script, out["ctxs"])
     elif out.get("details") is not None:
         problem = snapshot_consistent(script, out["details"])
+        if problem is None and valid is not None and not g.done:
+            sig = snapshot_signature(out["details"])
+            if sig not in valid:
+                problem = "the snapshot (blocks %r, stack %r) is not what the frame looks like at any single position" % sig
     if "decoy" in extra:
         dg, dt = extra["decoy"]
         dg.go.release()
@@ -685,11 +770,35 @@ def run_race(req):
         if base["problem"]:
             obs.append({"kind": "race", "script": script, "api": api, "nadv": nadv, "j": -1, "k": 0,
                         "problem": base["problem"]})
+        valid = None
+        if api == "inspect" and isinstance(script, str) and not script.startswith("gen:"):
+            try:
+                valid = valid_signatures(script, 12)
+            except RuntimeError as ex:
+                return {"harness_error": repr(ex)}
+        if req.get("pairs") and api in ("inspect", "ctx"):
+            # two moves: k1 gates at the j1-th preemption point, k2 more at the j2-th
+            for j1 in range(base["hooks"]):
+                for j2 in range(j1 + 1, base["hooks"]):
+                    for (k1, k2) in req["pairs"]:
+                        try:
+                            r = one(script, nadv, j1, k1, api, False, j2, k2, valid)
+                        except RuntimeError as ex:
+                            return {"harness_error": repr(ex)}
+                        stats["schedules"] += 1
+                        stats["two_point_schedules"] = stats.get("two_point_schedules", 0) + 1
+                        stats["moved"] += 1 if r["moved"] else 0
+                        stats["rejected_or_warned"] += 1 if (r["warned"] or r["rejected"]) else 0
+                        if r["problem"]:
+                            obs.append({"kind": "race", "script": script, "api": api, "nadv": nadv, "j": j1, "k": k1,
+                                        "j2": j2, "k2": k2, "problem": r["problem"]})
+                            if len(obs) > 4:
+                                return {"obs": obs, "stats": stats}
         for jstar in range(base["hooks"]):
             for k in req["ks"]:
                 for new_thread in ((False, True) if k == max(req["ks"]) and api == "thread" else (False,)):
                     try:
-                        r = one(script, nadv, jstar, k, api, new_thread)
+                        r = one(script, nadv, jstar, k, api, new_thread, valid=valid)
                     except RuntimeError as ex:
                         return {"harness_error": repr(ex)}
                     stats["schedules"] += 1
@@ -853,7 +962,73 @@ def run_stress_short_lived(req):
     return {"obs": obs, "stats": {"stress_extractions": done, "stress_short_lived_threads": done}}
 
 
+def run_finished_foreign(req):
+    """a thread that was not started through threading.Thread (its Thread object is the dummy that current_thread() hands
+    out inside it) has FINISHED, and the system has given its ident to a new, unrelated thread: no frames"""
+    import _thread
+    import time
+    box, done = [], threading.Event()
+
+    def foreign_body():
+        box.append(threading.current_thread())
+        done.set()
+
+    _thread.start_new_thread(foreign_body, ())
+    if not done.wait(30):
+        return {"harness_error": "foreign thread did not run"}
+    old = box[0]
+    for _ in range(200):
+        if old.ident not in sys._current_frames():
+            break
+        time.sleep(0.005)
+    obs = []
+    st0 = extract(old)
+    if st0.frames:
+        obs.append({"kind": "finished_thread_has_frames", "frames": [f.funcname for f in st0.frames]})
+    release = threading.Event()
+
+    def unrelated_work():
+        release.wait(60)
+
+    others, reused = [], None
+    try:
+        for _ in range(req.get("tries", 60)):
+            th = threading.Thread(target=unrelated_work, daemon=True)
+            th.start()
+            others.append(th)
+            if th.ident == old.ident:
+                reused = th
+                break
+        if reused is not None:
+            for _ in range(200):
+                fr = sys._current_frames().get(reused.ident)
+                if fr is not None and any(f.f_code is unrelated_work.__code__ for f in _walk(fr)):
+                    break
+                time.sleep(0.005)
+            st = extract(old)
+            if st.frames:
+                obs.append({"kind": "finished_foreign_thread_reports_the_frames_of_the_thread_that_got_its_ident",
+                            "frames": [f.funcname for f in st.frames][:8]})
+            # ... while the new owner of the ident is what it is
+            st2 = extract(reused)
+            if not any(f.pyframe.f_code is unrelated_work.__code__ for f in st2.frames):
+                obs.append({"kind": "live_thread_lost_its_frames", "frames": [f.funcname for f in st2.frames][:8]})
+    finally:
+        release.set()
+        for th in others:
+            th.join(30)
+    return {"obs": obs, "stats": {"ident_reused": 1 if reused is not None else 0, "threads_started": len(others)}}
+
+
+def _walk(fr):
+    while fr is not None:
+        yield fr
+        fr = fr.f_back
+
+
 def handle(req):
+    if req["op"] == "threads.finished_foreign":
+        return run_finished_foreign(req)
     if req["op"] == "threads.deep":
         return run_deep(req)
     op = req["op"]
